@@ -286,7 +286,7 @@ impl Property for C13 {
     fn runs(&self, tier: Tier) -> u64 {
         match tier {
             Tier::Quick => 40_000,
-            Tier::Thorough => 2_500_000,
+            Tier::Thorough => 25_000_000,
         }
     }
 
